@@ -374,7 +374,48 @@ def serialized_key_rule(ctx, rule):
            "it is written under its old name, or under none", f.lineno)
 
 
+def text_field_state_rule(ctx, rule):
+    """`_to_single` joins the lines of a ';' text field: whether a line that starts with ';' OPENS or CLOSES a field is decided by the
+    state (is a field open?), never by what else the line holds - a value that starts with a line break is written as a bare ';'
+    line and opens its field all the same.  By ways through the loop: a ';' line is selected by the open / not-open flag alone and flips it"""
+    from .. import machine
+    from ..exprnorm import canon as _canon
+    f = ctx.src(CIF).func("_to_single")
+    lps = [st for st in f.body if isinstance(st, ast.For)]
+    ctx.need(len(lps) == 1 and isinstance(lps[0].target, ast.Name), "the line loop of _to_single")
+    lp = lps[0]
+    line = lp.target.id
+    flags = {st.targets[0].id for st in ast.walk(lp) if isinstance(st, ast.Assign) and isinstance(st.targets[0], ast.Name)
+             and isinstance(st.value, ast.Constant) and isinstance(st.value.value, bool)}
+    ctx.need(len(flags) == 1, "the open-field flag of _to_single")
+    flag = next(iter(flags))
+    semi = {repr(_canon(ast.parse(t_, mode="eval").body)) for t_ in (f"{line}[0] == ';'", f"{line}.startswith(';')", f"{line}[:1] == ';'")}
+    k_open, k_closed = repr(_canon(ast.parse(flag, mode="eval").body)), repr(_canon(ast.parse(f"not {flag}", mode="eval").body))
+    bad, n_semi = [], 0
+    for w in machine.ways(lp.body, machine.assigned_names(lp), ("append",)):
+        if not (w.conds & semi):
+            if any(u.startswith(f"{flag} = ") for u in w.updates):
+                bad.append("the flag changes on a line that does not start with ';'")
+            continue
+        n_semi += 1
+        rest = w.conds - semi
+        if rest == {k_closed}:
+            want = f"{flag} = True"
+        elif rest == {k_open}:
+            want = f"{flag} = False"
+        else:
+            bad.append(f"a ';' line is also selected by {sorted(rest - {k_open, k_closed}) or 'nothing but its first character'}")
+            continue
+        if want not in w.updates:
+            bad.append(f"a ';' line under `{'not ' if rest == {k_closed} else ''}{flag}` does not set `{want}`")
+    ctx.need(n_semi >= 2 or bad, "the ';' ways of _to_single")
+    ctx.ob(rule, CIF, "_to_single", f"a ';' line opens a field when none is open and closes the open one ({n_semi} ways)", not bad,
+           "; ".join(bad) + ": a text field whose first or last line looks unusual (a value that starts with a line break gives a bare ';') is cut "
+           "at the wrong line", lp.lineno)
+
+
 def run(ctx):
+    text_field_state_rule(ctx, "R1.text-field-state")
     serialized_key_rule(ctx, "R2.element-written-under-its-key")
     # the text flavour is read from and written to text streams, the binary flavour to binary ones - wrappers included
     from .C12 import file_mode_rules
@@ -769,6 +810,7 @@ def run(ctx):
 
 
 MUTANTS = [
+    Mutant("text-field-opened-by-content", CIF, "            if not in_multi_line:\n                # Start of multiline value", "            if line != \";\":\n                # Start of multiline value", "R1.text-field-state"),
     Mutant("column-eq-ignores-mask", CIF, "        if self._mask != other._mask:\n            return False\n        return True\n\n\nclass CIFCategory", "        return True\n\n\nclass CIFCategory", "R2.equality-covers-state"),
     Mutant("bcif-data-eq-ignores-encoding", BCIF, "        if self._encoding != other._encoding:\n            return False\n", "", "R2.equality-covers-state"),
     Mutant("bcif-column-eq-flipped", BCIF, "        if self._mask != other._mask:\n            return False\n        return True\n\n\nclass BinaryCIFCategory", "        if self._mask == other._mask:\n            return False\n        return True\n\n\nclass BinaryCIFCategory", "R2.equality-covers-state"),
